@@ -21,6 +21,7 @@ type cacheFunctions[MetadataT any] struct {
 	getCacheSize  func() int64
 	getCacheLen   func() int
 	getLock       func(key CacheKey) *sync.RWMutex
+	getMetadata   func(key CacheKey) (*EntryMetadata[MetadataT], bool)
 }
 
 type cacheJanitor[MetadataT any] struct {
@@ -125,6 +126,13 @@ func (j *cacheJanitor[MetadataT]) cleanExpiredEntries() {
 		if !locked {
 			verifhook.Emit("clean_skip", key.Hex, 0, 0)
 			slog.Info("Failed to acquire lock for key", "key", key.Hex)
+			continue
+		}
+
+		// The entry may have been refreshed or replaced since the scan: check again under its lock.
+		if meta, ok := j.cacheFns.getMetadata(key); !ok || !meta.Expires.Before(time.Now()) {
+			lock.Unlock()
+			slog.Info("Cache entry is no longer expired, keeping it", "key", key.Hex)
 			continue
 		}
 
